@@ -159,13 +159,85 @@ def fittedaffine(recv, fn):
 //@   loop 10 invariant [pairs] {PAIRS}
 //@   loop 10 writes fresh
 ''')
+
+# ---- C08: the dynamic programming table equals the optimum defined by the recurrence ----
+# optimum spec functions: one per kernel (receiver and letter type); cell() is a marker that lets the definitional
+# axiom fire only for the cell a proof obligation is about (proving(cell(i, j)) is dropped where a clause is assumed).
+def opt_name(kind, ql):
+    return {'nw': 'nwOpt', 'sw': 'swOpt', 'fitted': 'fitOpt'}[kind] + ('Q' if ql else '')
+def opt_specs():
+    out = ["// ---- the dynamic programming tables of the linear-gap kernels (C08) ----",
+           "// <kind>Opt(a, alpha, rSeq, qSeq, i, j): the optimum score of aligning rSeq[:i] with qSeq[:j] as the textbook recurrence",
+           "// defines it (global: gaps everywhere cost the matrix' gap column/row; local: floored at 0; fitted: a free reference",
+           "// prefix). cell(i, j) is a marker, true everywhere: the recurrence is unfolded only for marked cells.",
+           "//@ spec cell(i int, j int) bool",
+           "//@ axiom forall i int, j int {cell(i, j)} :: cell(i, j)"]
+    for kind, recv in (('nw', 'NW'), ('sw', 'SW'), ('fitted', 'Fitted')):
+        for ql in (False, True):
+            f = opt_name(kind, ql)
+            lt = 'alphabet.QLetters' if ql else 'alphabet.Letters'
+            L = '.L' if ql else ''
+            O = lambda i, j: f"{f}(a, alpha, rSeq, qSeq, {i}, {j})"
+            sub = f"a[lidx(alpha, rSeq[i-1]{L})][lidx(alpha, qSeq[j-1]{L})]"
+            gr = f"a[lidx(alpha, rSeq[i-1]{L})][0]"
+            gq = f"a[0][lidx(alpha, qSeq[j-1]{L})]"
+            inner = f"max(max({O('i-1','j-1')} + {sub}, {O('i-1','j')} + {gr}), {O('i','j-1')} + {gq})"
+            if kind == 'nw':
+                body = f"(i == 0 && j == 0 ==> {O('i','j')} == 0) && (i == 0 && j > 0 ==> {O('i','j')} == {O('0','j-1')} + {gq}) && (i > 0 && j == 0 ==> {O('i','j')} == {O('i-1','0')} + {gr}) && (i > 0 && j > 0 ==> {O('i','j')} == {inner})"
+            elif kind == 'fitted':
+                body = f"(j == 0 ==> {O('i','j')} == 0) && (i == 0 && j > 0 ==> {O('i','j')} == {O('0','j-1')} + {gq}) && (i > 0 && j > 0 ==> {O('i','j')} == {inner})"
+            else:
+                body = f"((i == 0 || j == 0) ==> {O('i','j')} == 0) && (i > 0 && j > 0 ==> {O('i','j')} == max(0, {inner}))"
+            out.append(f"//@ spec {f}(a {recv}, alpha alphabet.Alphabet, rSeq {lt}, qSeq {lt}, i int, j int) int")
+            out.append(f"//@ axiom forall a {recv}, alpha alphabet.Alphabet, rSeq {lt}, qSeq {lt}, i int, j int {{{O('i','j')}, cell(i, j)}} :: {body}")
+    return "\n".join(out) + "\n\n"
+def dp_lines(kind, ql):
+    f = opt_name(kind, ql)
+    O = lambda i, j: f"{f}(a, alpha, rSeq, qSeq, {i}, {j})"
+    def Q(vars_, trig, cond, i, j, idx):
+        return f"forall {vars_} {{{trig}}} :: {cond} ==> proving(cell({i}, {j})) && table[{idx}] == {O(i, j)}"
+    LA = lambda lim: f"forall x int, y int {{old(a[x][y])}} :: 0 <= x && x < {lim} && 0 <= y && y < let ==> la[x*let+y] == old(a[x][y])"
+    row0 = lambda lim: Q('j2 int', O('0', 'j2'), f'0 <= j2 && j2 {lim}', '0', 'j2', 'j2')
+    col0 = lambda lim: Q('i2 int', O('i2', '0'), f'0 <= i2 && i2 < {lim}', 'i2', '0', 'i2*c')
+    done = lambda lim: Q('i2 int, j2 int', O('i2', 'j2'), f'0 <= i2 && i2 < {lim} && 0 <= j2 && j2 < c', 'i2', 'j2', 'i2*c+j2')
+    prev = Q('j2 int', O('i-1', 'j2'), '0 <= j2 && j2 < c', 'i-1', 'j2', '(i-1)*c+j2')
+    cur = Q('j2 int', O('i', 'j2'), '0 <= j2 && j2 < j', 'i', 'j2', 'i*c+j2')
+    out = []
+    A = lambda n, lab, e: out.append(f"//@   loop {n} invariant [{lab}] {e}")
+    if kind == 'nw':
+        la_loops, r0, c0, outer, inner, after = (2, 3, 4, 5, 6, 7), 4, 5, 6, 7, (8,)
+    elif kind == 'fitted':
+        la_loops, r0, c0, outer, inner, after = (2, 3, 4, 5, 6), 4, None, 5, 6, (7, 8, 9)
+    else:
+        la_loops, r0, c0, outer, inner, after = (2, 3), None, None, 2, 3, (4,)
+    A(1, 'la', LA('idx'))
+    out.append("//@   loop 1 writes fresh")
+    for n in la_loops:
+        A(n, 'la', LA('let'))
+    if r0:
+        A(r0, 'dp-row0', row0('<= idx'))
+        if not c0:
+            # the first column stays as make() left it
+            A(r0, 'dp-zero', "forall k int :: idx < k && k < len(table) ==> table[k] == 0")
+    if c0:
+        A(c0, 'dp-row0', row0('< c'))
+        A(c0, 'dp-col0', col0('i'))
+        A(c0, 'dp-prev', f"proving(cell(i-1, 0)) && table[(i-1)*c] == {O('i-1', '0')}")
+    for n in (outer, inner):
+        A(n, 'dp-col0', col0('r'))
+        A(n, 'dp-done', done('i'))
+        A(n, 'dp-prev', prev)
+    A(inner, 'dp-cur', cur)
+    for n in after:
+        A(n, 'dp', done('r'))
+    return "\n".join(out) + "\n"
 def q(s):
     # quality letters: the letter of element k is rSeq[k].L
     return s.replace('rSeq[k]', 'rSeq[k].L').replace('qSeq[k]', 'qSeq[k].L').replace('rSeq[i-1]', 'rSeq[i-1].L')
-out = []
-for mk, recv in ((nw, 'NW'), (sw, 'SW'), (fitted, 'Fitted')):
-    out.append(mk(recv, 'alignLetters'))
-    out.append(q(mk(recv, 'alignQLetters')))
+out = [opt_specs()]
+for mk, recv, kind in ((nw, 'NW', 'nw'), (sw, 'SW', 'sw'), (fitted, 'Fitted', 'fitted')):
+    out.append(mk(recv, 'alignLetters').replace('//@   property C09\n', '//@   property C09\n//@   property C08\n') + dp_lines(kind, False))
+    out.append(q(mk(recv, 'alignQLetters')).replace('//@   property C09\n', '//@   property C09\n//@   property C08\n') + dp_lines(kind, True))
 out.append(nwaffine('NWAffine', 'alignLetters'))
 out.append(q(nwaffine('NWAffine', 'alignQLetters')))
 out.append(swaffine('SWAffine', 'alignLetters'))
